@@ -26,12 +26,15 @@ META = {
 }
 
 OPT_KEEP = {"step", "solve", "reload", "add_point_to_log", "tag", "enable", "disable", "set_knobs_from_x", "log", "_clip_to_limits",
-            "_extract_knob_values", "_add_starting_point_to_log_and_print", "_print_end", "_knobs_to_x", "_x_to_knobs", "_clip_to_max_steps",
+            "_add_starting_point_to_log_and_print", "_print_end", "_knobs_to_x", "_x_to_knobs", "_clip_to_max_steps",
             "_get_x_limits", "get_jacobian", "eval", "run", "clear_log", "run_jacobian", "run_simplex", "run_direct", "run_bfgs", "run_ls_trf",
             "run_ls_dogbox", "run_l_bfgs_b", "set_x", "get_x", "_err", "target_status", "vary_status", "get_merit_function"}
 ERR = ("attr", S.SELF, "_err")
 FLAG = ("attr", ERR, "last_point_within_tol")
 LOG = S.sattr("_log")
+# the current knob values: Optimize._extract_knob_values() delegates to the merit function's (inlined: one term)
+KNOBS = ("acc", "list", (("one", (), S.mcall(("elem", ("attr", ERR, "vary")), "get_value")),))
+KNOBS_ALTS = (KNOBS, S.mcall(ERR, "_extract_knob_values"), S.mcall(S.SELF, "_extract_knob_values"))
 QUIET = ("_print", "print")
 
 
@@ -129,8 +132,8 @@ def _solve(col):
             "in the handler the knobs are restored before any other operation that may itself raise (re-evaluating the model at the "
             "failed point, logging it, ...): a second failure must not prevent the restore", str(before))
     seed = [e for e in sx.of_kind("store") if e.target == ("attr", S.sattr("solver"), "x")]
-    want = S.mcall(ERR, "_knobs_to_x", S.mcall(S.SELF, "_extract_knob_values"))
-    ok = len(seed) == 1 and all(cfg.dominates(seed[0].nid, s) for s in steps) and seed[0].value == want
+    want = [S.mcall(ERR, "_knobs_to_x", k) for k in KNOBS_ALTS]
+    ok = len(seed) == 1 and all(cfg.dominates(seed[0].nid, s) for s in steps) and seed[0].value in want
     col.add("C09.R2", f"{q}#solver-seeded-from-current-knobs", ok, sx.loc(seed[0]) if seed else sx.loc(sx.fn),
             "the solver starts from the knob values currently in the containers", S.show(seed[0].value) if seed else "")
 
